@@ -616,7 +616,7 @@ func (t *tunnelRelay) wrapInput() {
 
 			t.clientBufChan <- buf
 		}
-		if err == io.EOF {
+		if err != nil { // EOF, or closed while reading
 			for t.relay.Load() != nil { // wait for reset
 				time.Sleep(50 * time.Millisecond)
 			}
@@ -657,7 +657,7 @@ func (t *tunnelRelay) wrapOutput() {
 
 			t.serverBufChan <- buf
 		}
-		if err == io.EOF {
+		if err != nil { // EOF, or closed while reading
 			for t.relay.Load() != nil { // wait for reset
 				time.Sleep(50 * time.Millisecond)
 			}
